@@ -27,9 +27,37 @@ COMMON_ASSUMPTIONS = [
 ]
 
 PROPS = {
+    "C01": {
+        "level": "exploration",
+        "runs": {"quick": 1200, "thorough": 60000},
+        "budget_s": {"quick": 400, "thorough": 3000},
+        "rule": "one evaluation = one honest proving request (generated circuit program with a satisfying tape, constraint count 2^k+d with d in -8..8, k=3..10 (thorough: ..12), public inputs on generated rows incl. first user row / last row of a full domain / adjacent / zero-valued, raw zero rows with arbitrary selectors, SRS exactly sufficient or ample) pushed through the fault-free deployment: compile by a seeded route (compile_with_circuit / compile::<C> via Default / compressed), keys used directly or after a restart (drop + reload from bytes), prove under a seeded pool/schedule/hash stream with V3 or V2, deliver to the real verifier and the independent reference verifier. Non-trivial = non-default route, or a restart, or a non-canonical environment; distinct = hash of (scenario shape, environment, route, proof index).",
+        "assumptions": ["degenerate RNG draws (probability ~2^-250) are outside the property and are not injected here"],
+    },
+    "C03": {
+        "level": "exploration",
+        "runs": {"quick": 400, "thorough": 8000},
+        "budget_s": {"quick": 400, "thorough": 3000},
+        "rule": "one evaluation = one (verifier, proof bytes, public inputs, version) tuple decided by the real verifier and by the independent reference verifier RM-verify (written from the protocol, fed only Verifier::to_bytes(), proof bytes, public inputs, version); verdicts must be equal (I-refine), honest proofs must be accepted under their own version, every altered message must be rejected. Corpus per run: 3 honest proofs x 3 versions, seeded channel faults (bit flips, truncation, splices of two valid proofs, field swaps, fresh valid elements, neutral elements, all-zero / all-identity proofs), every one of the 26 proof fields substituted once, altered public inputs, delivery to the verifier of a near-miss circuit. Thorough tier: on every 64th run all 8064 single-bit flips of one honest proof. Non-trivial = the message differs from the honest one or the version differs; distinct = hash of (scenario, message bytes, fault kind).",
+        "assumptions": ["RM-verify (sim/plonksim/src/rm_verify.rs) is the trusted statement of the verification equation and transcript", "the rejection branch for an evaluation challenge inside the domain is unreachable through the API (z is a hash output) and is reported as unreached"],
+    },
+    "C04": {
+        "level": "exploration",
+        "runs": {"quick": 600, "thorough": 16000},
+        "budget_s": {"quick": 400, "thorough": 3000},
+        "rule": "one evaluation = one delivery of an honestly produced (proof, public inputs, version) message under a channel fault: public-input vector edits (every position +1 / 0 / swap / drop / duplicate, seeded replace, append, prepend, clear), delivery to the verifier of a near-miss circuit (one selector, one constant, one operand wire, one public-input row, one constraint more/fewer; skipped and counted when the verifier bytes are identical), of another label (byte flipped / appended / prepended / truncated / empty), of another protocol version (all ordered pairs V2,V3 x V1,V2,V3), duplicate delivery. Oracle by message identity: only the exact honest tuple may be accepted; a panic is a violation; RM-verify mirrors every decision. Non-trivial = the delivered tuple differs from the honest one.",
+        "assumptions": ["V1 has no prover in the library, so V1 appears only on the verifier side of the version pairs"],
+    },
+    "C16": {
+        "level": "exploration",
+        "runs": {"quick": 600, "thorough": 16000},
+        "budget_s": {"quick": 400, "thorough": 3000},
+        "rule": "one evaluation = one restart comparison: a node's in-memory Prover / Verifier / Proof / PublicParameters is dropped and reloaded from the bytes on the simulated disk (no disk faults in this class); checked are encode(decode(b)) == b, serialized_size == len, identical proof bytes from original and reloaded prover under the same RNG script and independently chosen environments, identical verdicts of original and reloaded verifier on every message of the run's corpus (honest + seeded channel-corrupted messages, accepts and rejects), parameters reloaded via to_var_bytes/from_slice compiling to byte-identical keys, and canonicity of every 1008-byte string the proof decoder accepts. Non-trivial = every comparison involves a reloaded object; distinct = hash of (scenario, comparison kind, message).",
+        "assumptions": [],
+    },
     "C18": {
         "level": "exploration",
-        "runs": {"quick": 160, "thorough": 6000},
+        "runs": {"quick": 600, "thorough": 12000},
         "budget_s": {"quick": 400, "thorough": 3000},
         "rule": "one evaluation = one top-level operation (compile by a seeded route / compress / prove with a fixed RNG script) executed under a perturbed environment (pool size T from the menu 1..17,24,31,32,33,64,100; seeded schedule; seeded hash-seed stream; seeded history of unrelated deployments; keys optionally reloaded from bytes) and compared byte-for-byte with the sequential specification (T=1, in-order, hash stream 0, empty history). Non-trivial = the environment is not the canonical one; distinct = distinct hash of (scenario shape, environment, operation).",
         "assumptions": ["std vs alloc-only builds are compared through per-run digests emitted by two separately built binaries (E1/E3)."],
